@@ -103,6 +103,18 @@ pub fn apply_fs_step(step: &Value, root: &Path) -> std::io::Result<()> {
             }
             k => panic!("unknown obstacle kind {k}"),
         },
+        // an existing file is moved aside and a directory put in its place / the reverse
+        "swapout" => {
+            let aside = root.join(step["aside"].as_str().unwrap());
+            std::fs::create_dir_all(aside.parent().unwrap())?;
+            std::fs::rename(&p, &aside)?;
+            std::fs::create_dir(&p)?;
+        }
+        "swapin" => {
+            let aside = root.join(step["aside"].as_str().unwrap());
+            std::fs::remove_dir_all(&p)?;
+            std::fs::rename(&aside, &p)?;
+        }
         "rm" => {
             if p.is_dir() {
                 std::fs::remove_dir_all(&p)?;
